@@ -188,6 +188,7 @@ func runC07(c *Ctx, r *Report) {
 	r.Rule("C07/K5", "a worker's send on a local unbuffered channel is always received: the spawner receives unconditionally and as often as the worker sends, or the send is in a select with an alternative", 6)
 	r.Rule("C07/K6", "the channel reader polls done after a failed transport read and before forwarding the error", 1)
 	r.Rule("C07/L", "every struct field accessed by two thread classes with a post-start write is protected by a common must-held lock (or is a channel/sync value)", 8)
+	r.Rule("C07/impl-close-all", "Close of each built-in transport releases every closable resource it holds (or finds it nil) before any return", 3)
 	r.Rule("C07/close-reaches-transport", "every return of Channel.Close is preceded by Transport.Close; the timeout edge is forced; the forced path takes no read lock; reads hold the read lock; every driver Close reaches Channel.Close", 6)
 
 	cl := buildClasses(c, r, "C07/L")
@@ -199,6 +200,7 @@ func runC07(c *Ctx, r *Report) {
 	checkDonePoll(c, r, cl)
 	checkLockset(c, r, cl, "C07/L", nil)
 	checkCloseReachesTransport(c, r)
+	checkImplCloseAll(c, r)
 	r.Extra["api_roots"] = len(cl.apiRoots)
 	r.Extra["api_thread_functions"] = len(cl.API)
 	r.Extra["foreground_functions"] = len(cl.FG)
